@@ -603,6 +603,108 @@ pub fn gen_many_small(src: &mut Src) -> Vec<u8> {
     out
 }
 
+/// An object with 16..104 members whose names are NOT in lexicographic order (k0..kN: "k10" < "k2"),
+/// optionally nested, with distinct values.
+pub fn gen_wide_object(src: &mut Src) -> Vec<u8> {
+    let n = *src.pick(&[16usize, 17, 20, 21, 32, 33, 64, 65, 100]) + src.below(4);
+    let nested = src.chance(60);
+    let mut out = if nested { b"[0,{\"w\":".to_vec() } else { Vec::new() };
+    out.push(b'{');
+    let order = src.below(3);
+    for j in 0..n {
+        let i = match order {
+            0 => j,
+            1 => n - 1 - j,
+            _ => (j * 7) % n,
+        };
+        if j > 0 {
+            out.push(b',');
+        }
+        out.extend_from_slice(format!("\"k{i}\":").as_bytes());
+        match src.below(3) {
+            0 => out.extend_from_slice(format!("{i}").as_bytes()),
+            1 => out.extend_from_slice(format!("[{i}]").as_bytes()),
+            _ => out.extend_from_slice(format!("{{\"v\":{i}}}").as_bytes()),
+        }
+    }
+    out.push(b'}');
+    if nested {
+        out.extend_from_slice(b"}]");
+    }
+    out
+}
+
+/// A document of several KiB whose bulk is one or two strings of multi-byte characters: character
+/// boundaries fall at every phase relative to 4 KiB / 32 KiB / 64 KiB marks (validation, copying or
+/// scanning done in large blocks), with the interesting values behind them.
+pub fn gen_large_utf8(src: &mut Src) -> Vec<u8> {
+    let total = *src.pick(&[4096usize, 4096, 8192, 12288, 16384, 32768, 65536]) + src.below(24) - 4;
+    let ch: &str = *src.pick(&["é", "中", "😀", "\u{7ff}", "\u{ffff}", "\u{10ffff}"]);
+    let phase = src.below(5);
+    let shape = src.below(3);
+    let mut out = Vec::with_capacity(total + 200);
+    let fill = |out: &mut Vec<u8>, upto: usize, src: &mut Src| {
+        out.push(b'"');
+        out.resize(out.len() + phase, b'a');
+        while out.len() + ch.len() < upto {
+            if src.chance(4) {
+                out.extend_from_slice(b"\\n");
+            } else {
+                out.extend_from_slice(ch.as_bytes());
+            }
+        }
+        out.push(b'"');
+    };
+    match shape {
+        0 => {
+            out.extend_from_slice(b"{\"pad\":");
+            fill(&mut out, total, src);
+            out.extend_from_slice(b",\"t\":[1,{\"u\":\"\xc3\xa9\"}],\"z\":\"\xe4\xb8\xad\"}");
+        }
+        1 => {
+            out.push(b'[');
+            fill(&mut out, total / 2, src);
+            out.push(b',');
+            fill(&mut out, total, src);
+            out.extend_from_slice(b",[2,3],\"\xf0\x9f\x98\x80\",{\"k\":null}]");
+        }
+        _ => {
+            out.extend_from_slice(b"{\"a\":{\"b\":[");
+            fill(&mut out, total, src);
+            out.extend_from_slice(b",7]},\"c\":\"\xc3\xa9\"}");
+        }
+    }
+    out
+}
+
+/// A deeply nested document (depth 20..=120, far below the 255 limit) in which every level has two or
+/// more members, so that separators, indentation and per-level state are exercised at depth.
+pub fn gen_deep(src: &mut Src) -> Vec<u8> {
+    let depth = *src.pick(&[20usize, 31, 32, 33, 34, 40, 48, 63, 64, 65, 80, 100, 120]) + src.below(3);
+    let shape = src.below(3);
+    let mut out = Vec::new();
+    let mut closers = Vec::new();
+    for d in 0..depth {
+        let arr = match shape {
+            0 => true,
+            1 => false,
+            _ => d % 2 == 0,
+        };
+        if arr {
+            out.extend_from_slice(format!("[{d},").as_bytes());
+            closers.push(if src.chance(128) { &b",true]"[..] } else { b"]" });
+        } else {
+            out.extend_from_slice(format!("{{\"k{d}\":{d},\"n\":").as_bytes());
+            closers.push(if src.chance(128) { &b",\"z\":null}"[..] } else { b"}" });
+        }
+    }
+    out.extend_from_slice(*src.pick(&[&b"[5,6]"[..], b"{\"a\":5,\"b\":6}", b"[]", b"\"leaf\"", b"[[1,2],[3,4]]"]));
+    while let Some(c) = closers.pop() {
+        out.extend_from_slice(c);
+    }
+    out
+}
+
 // ------------------------------------------------------------------------------------------
 // mutators
 
